@@ -22,7 +22,7 @@ from typing import Dict, List, Optional, Set, Tuple
 from ..core import AnalysisError, Func, Repo, dotted, norm, parents
 from ..cfg import CFG
 from ..report import Check
-from ..util import call_name, calls_in, enclosing_trys, handler_names
+from ..util import call_name, calls_in, enclosing_trys, handler_names, impl_funcs
 
 M = 'pydoctor.model'
 
@@ -53,6 +53,18 @@ BASEOBJECTS_USERS = {
 }
 
 
+def _localbases_func(repo: Repo) -> Func:
+    """The function that turns the direct bases of a class into what the C3 merge is fed (historically the closure `compute_mro.localbases`): found by
+    what it does - it lives in compute_mro or next to it as a private module-level function, and walks `.bases` alongside `.baseobjects`."""
+    cm = repo.func(f'{M}.compute_mro')
+    cands = [g for g in repo.funcs.values() if g.mod is cm.mod and (g.outer is cm or (g.outer is None and g.cls is None and g.name.startswith('_'))) and
+             any(isinstance(n, ast.Attribute) and n.attr == 'baseobjects' for n in g.walk()) and
+             any(isinstance(n, ast.Attribute) and n.attr == 'bases' for n in g.walk())]
+    if len(cands) != 1:
+        raise AnalysisError(f'anchor vanished: the function that feeds the direct bases to the C3 merge was not found in {M} ({[g.qn for g in cands]})')
+    return cands[0]
+
+
 def run(repo: Repo, chk: Check, thorough: bool = False) -> None:
     chk.explanation = ('who-uses census of Class.mro()/allbases()/baseobjects against tables of consumers; exception classes raised by the '
                        'linearisation code and handler shape of Class._init_mro; call-site census of _init_mro/compute_mro; receiver of the '
@@ -60,14 +72,17 @@ def run(repo: Repo, chk: Check, thorough: bool = False) -> None:
     chk.assumptions = ['mro._merge implements C3 (not decided: needs execution against type.__mro__)',
                        'consumers are identified by iterating <x>.mro(...) / <x>.allbases(...) / <x>.baseobjects syntactically']
     # ------------------------------------------------------------------ R05.1
+    lbf = _localbases_func(repo)
     for q in MRO_CONSUMERS:
         f = repo.funcs.get(q)
         if f is None:
             chk.error(f'R05.1: consumer {q} no longer exists: re-confirm the consumer table')
             continue
-        uses_mro = [c for c in calls_in(f) if call_name(c) == 'mro' and isinstance(c.func, ast.Attribute)]
-        uses_all = [c for c in calls_in(f) if call_name(c) == 'allbases']
-        uses_bo = [n for n in f.walk() if isinstance(n, ast.Attribute) and n.attr in ('baseobjects', '_finalbaseobjects', '_initialbaseobjects')]
+        # (the consumer together with the private helpers it delegates the walk to: `overridden = _find_overridden(cls, name)`)
+        impl = impl_funcs(repo, f, depth=2)
+        uses_mro = [c for g_ in impl for c in calls_in(g_) if call_name(c) == 'mro' and isinstance(c.func, ast.Attribute)]
+        uses_all = [c for g_ in impl for c in calls_in(g_) if call_name(c) == 'allbases']
+        uses_bo = [n for g_ in impl for n in g_.walk() if isinstance(n, ast.Attribute) and n.attr in ('baseobjects', '_finalbaseobjects', '_initialbaseobjects')]
         ok = bool(uses_mro) and not uses_all and not uses_bo
         chk.ob('R05.1', f'{q} :: walks the linearisation', ok,
                f'iterates {norm(uses_mro[0])}' if ok else
@@ -87,8 +102,8 @@ def run(repo: Repo, chk: Check, thorough: bool = False) -> None:
                     (isinstance(par, ast.Call) and call_name(par) in ('zip', 'enumerate', 'reversed', 'list'))
                 if not iterated and not isinstance(par, ast.Compare):
                     continue
-                ok = f.qn in BASEOBJECTS_USERS
-                chk.ob('R05.1', f'{f.qn} :: uses baseobjects', ok, BASEOBJECTS_USERS.get(f.qn, '') if ok else
+                ok = f.qn in BASEOBJECTS_USERS or f is lbf
+                chk.ob('R05.1', f'{f.qn} :: uses baseobjects', ok, BASEOBJECTS_USERS.get(f.qn, 'direct bases handed to the C3 merge') if ok else
                        'direct bases iterated by a new consumer: members must be attributed along mro(), baseobjects is for direct-base purposes only',
                        repo.loc(f.mod, n))
     chk.require('R05.1', 18)
@@ -96,7 +111,12 @@ def run(repo: Repo, chk: Check, thorough: bool = False) -> None:
     # ------------------------------------------------------------------ R05.2
     for q in ('pydoctor.mro._merge', 'pydoctor.mro.mro', f'{M}.compute_mro', f'{M}.compute_mro.init_finalbaseobjects'):
         f = repo.func(q)
-        for n in f.walk():
+        # (with the private helpers a raise may have been moved into: `_next_candidate(...)` of `_merge`)
+        seen_r = set()
+        for n in [x for g_ in impl_funcs(repo, f, depth=2) for x in g_.walk()]:
+            if id(n) in seen_r:
+                continue
+            seen_r.add(id(n))
             if isinstance(n, ast.Raise) and n.exc is not None:
                 ok = 'ValueError' in norm(n.exc)
                 chk.ob('R05.2', f'{q} :: raises {norm(n.exc)[:30]}', ok, 'ValueError (what Class._init_mro handles)' if ok else
@@ -221,7 +241,7 @@ def run(repo: Repo, chk: Check, thorough: bool = False) -> None:
            'unresolvable strings and vanish from the MRO', vc.loc)
     # Python drops an explicit `Generic[T]` base when ANY later base is a subscripted generic (typing._GenericAlias.__mro_entries__: `for b in bases[i+1:]`).
     # The branch of compute_mro.localbases that leaves `Generic` out has to look at all the bases that follow, not at a fixed neighbour
-    lb0 = repo.func(f'{M}.compute_mro.localbases')
+    lb0 = _localbases_func(repo)
     mm0 = repo.mod(M)
     # the decision may sit in localbases itself, in a helper it calls, and the two names of Generic in a module constant: find the function that
     # compares a base name with 'typing.Generic' (directly or through such a constant) and is localbases or one of its callees
@@ -323,7 +343,7 @@ def run(repo: Repo, chk: Check, thorough: bool = False) -> None:
         f = repo.funcs.get(q)
         if f is None:
             raise AnalysisError(f'R05.6: {q} no longer exists: re-confirm the table of cross-class name matchers')
-        okn = _is_mangling_test(f) or any(call_name(c) in helpers for c in calls_in(f))
+        okn = any(_is_mangling_test(g_) or any(call_name(c) in helpers for c in calls_in(g_)) for g_ in impl_funcs(repo, f, depth=2))
         chk.ob('R05.6', f'{q} :: class-private names (__x) are not matched across classes', okn,
                'tests the mangling rule' if okn else
                'members are matched by their source spelling only: `Derived.__check` inherits the docstring of `Base.__check`, is shown as overriding it and hides '
@@ -455,9 +475,7 @@ def check_r05_10(repo: Repo, chk: Check) -> None:
     # (c) `class Impl(Generic[T], Named[T])`: typing drops `Generic[...]` from the bases when a later base is a subscripted generic (PEP 560,
     # `_GenericAlias.__mro_entries__`): Generic then comes in through that base only.  Fed to the C3 merge as a first base it makes a hierarchy that
     # CPython accepts look inconsistent ("Cannot compute linearization") and the class falls back to a wrong linearisation
-    lb = repo.funcs.get(f'{M}.compute_mro.localbases')
-    if lb is None:
-        raise AnalysisError('R05.10: compute_mro.localbases not found')
+    lb = _localbases_func(repo)
     # (the decision may live in localbases or in a module-level helper it calls, the names of Generic in a module constant)
     cal10 = {call_name(c) for c in calls_in(lb)}
     scope10: List[ast.AST] = list(lb.walk())
